@@ -1,4 +1,5 @@
 import CoxeterVerif.Vec
+import CoxeterVerif.Model.ChainCheck
 /-!
   Specification layer for planar regions in the xy-plane: a region is presented as a finite list
   of triangles (z ignored); "exact integrals" are sums of the textbook closed forms of
@@ -26,5 +27,28 @@ def first (Ts : List (Tri α)) (i : Nat) : α := Scalar.sum (Ts.map (triFirst ·
 def second (Ts : List (Tri α)) (i j : Nat) : α := Scalar.sum (Ts.map (triSecond · i j))
 def centroidX (Ts : List (Tri α)) : α := first Ts 0 / area Ts
 def centroidY (Ts : List (Tri α)) : α := first Ts 1 / area Ts
+
+/-! ### computable certificate checkers (the driver runs them exactly over `ℚ` on the oracle's own triangulation;
+soundness in `Lemmas/PlanarCert.lean`) -/
+
+/-- directed edges `(v_i, v_{i+1})` of the closed vertex cycle -/
+def cycleEdges (w : List (V3 α)) : List (V3 α × V3 α) := w.zip (w.drop (1 % w.length) ++ w.take (1 % w.length))
+
+/-- **triangulation certificate**: the directed edges of the triangles minus the directed edges of the vertex
+cycle cancel in pairs — the boundary of the triangle list IS the polygon's cycle, as 1-chains. -/
+def triangulationCheck (w : List (V3 α)) (Ts : List (Tri α)) : Bool :=
+  let E := cycleEdges w ++ (Ts.flatMap ChainCheck.edgesOf).map (fun e => (e.2, e.1))
+  ChainCheck.cancelEdges E.length E
+
+/-- **orientation certificate**: there is a triangle and every triangle is counter-clockwise (exact sign test).
+Together with `triangulationCheck` and a simple cycle this forces the triangles to tile the polygon's
+interior without overlap (the sum of their indicator functions is the winding number of the cycle). -/
+def orientCheck (Ts : List (Tri α)) : Bool :=
+  !Ts.isEmpty && Ts.all (fun t => decide (lit 0 < triArea t))
+
+/-- all triangle corners and all cycle vertices have `z = 0` (the oracle works in the polygon's own plane coordinates) -/
+def flatCheck (w : List (V3 α)) (Ts : List (Tri α)) : Bool :=
+  w.all (fun v => Scalar.eqb v.z (lit 0)) &&
+    Ts.all (fun t => Scalar.eqb t.a.z (lit 0) && Scalar.eqb t.b.z (lit 0) && Scalar.eqb t.c.z (lit 0))
 
 end Spec2
